@@ -246,6 +246,15 @@ def _run(case):
                 same = type(real)(other)
                 if call(lambda: real == same) != ("ok", True) or call(lambda: same == real) != ("ok", True):
                     raise Mismatch("eq/same-class", f"step {n}")
+                if other:
+                    # the same content spelled redundantly: one name in two letter cases with one value (more keys, same content)
+                    k0 = next(iter(other))
+                    alt = next((a for a in (k0.upper(), k0.lower(), k0.title(), k0.swapcase()) if a != k0), None)
+                    if alt is not None:
+                        red = dict(other)
+                        red[alt] = other[k0]
+                        if call(lambda: real == red) != ("ok", True) or call(lambda: red == real) != ("ok", True) or call(lambda: real != red) != ("ok", False):
+                            raise Mismatch("eq/plain-dict-with-redundant-case-variants", f"step {n}: d == {red!r} is not True; d={dict(real)!r}")
                 diff = dict(other)
                 diff[spell("ZZ-EXTRA")] = 0
                 if call(lambda: real == diff) != ("ok", False):
